@@ -36,7 +36,7 @@ type RulesParams struct {
 	EditMode string `json:"edit_mode"` // flip | drop-last | append | empty
 }
 
-var storedOperandPool = []string{"old", "ARGS", `\\d+`, "S", `foo\"@rx bar`, `a\" \x5cb`, `x$`, `(?i)^abc`, `\x5c\"`, `a b  c`, `[\"'` + "`" + `]+`, `!@rx `, ``}
+var storedOperandPool = []string{"old", "ARGS", `\\d+`, "S", `x\"!@rx y`, `foo\"@rx bar`, `a\" \x5cb`, `x$`, `(?i)^abc`, `\x5c\"`, `a b  c`, `[\"'` + "`" + `]+`, `!@rx `, ``}
 
 func genRules(t *rapid.T, tier string) (*World, any) {
 	w := NewWorld()
@@ -190,6 +190,16 @@ func genRules(t *rapid.T, tier string) (*World, any) {
 			break
 		}
 	}
+	if len(p.Targets) >= 2 && chance(t, 10, "stash-pair") {
+		// one file stores an expression, a later one (in walk order) only reads it: invalid on its own, and no --all run may make it valid
+		a, b := p.Targets[0].Arg, p.Targets[1].Arg
+		if b < a {
+			a, b = b, a
+		}
+		w.Put("crs/regex-assembly/"+a+".ra", w.Files["crs/regex-assembly/"+a+".ra"].Text+"##!> assemble\n  left\n  ##!=< shared\n  right\n##!<\n")
+		w.Put("crs/regex-assembly/"+b+".ra", w.Files["crs/regex-assembly/"+b+".ra"].Text+"##!> assemble\n  mid\n  ##!=> shared\n  end\n##!<\n")
+		feat["stash-writer-reader"] = true
+	}
 	for i := 0; i < 3; i++ {
 		p.Plans = append(p.Plans, drawPlan(t, fmt.Sprintf("plan%d", i), true))
 	}
@@ -302,6 +312,7 @@ func evalC12(sc *Scenario, sim *Sim) ([]Violation, bool, string) {
 		sb.Restore(sc.World)
 		// the --all variants need every other rule to be up to date: bring all rules up to date first; where that is
 		// impossible (another program does not compile) leave only this target's assembly file in place
+		allCurrent := false
 		if ua := sb.Run(Step{Argv: []string{"regex", "update", "--all"}, Cwd: "crs", Plan: p.Plans[0]}); ua.Exit != 0 {
 			sb.Restore(sc.World)
 			for path := range sc.World.Files {
@@ -312,6 +323,7 @@ func evalC12(sc *Scenario, sim *Sim) ([]Violation, bool, string) {
 			sim.Stats.probe("single-file-mode")
 		} else {
 			sim.Stats.probe("all-rules-current-mode")
+			allCurrent = true
 		}
 		add := func(oracle, what, msg, detail string) {
 			viol = append(viol, Violation{Prop: "C12", Oracle: oracle, Sig: "C12/" + oracle + "/" + what, Msg: msg,
@@ -319,6 +331,10 @@ func evalC12(sc *Scenario, sim *Sim) ([]Violation, bool, string) {
 		}
 		g := sb.Run(Step{Argv: []string{"regex", "generate", tg.Arg}, Cwd: "crs", Plan: p.Plans[0]})
 		if g.Exit != 0 {
+			if allCurrent {
+				// `update --all` has just reported success for every file, this one included: then generate must know its regex
+				add("stored-equals-generated", "update-all-ok-but-generate-fails", fmt.Sprintf("`update --all` exited 0 but `generate %s` fails (exit %d): what was stored for that rule is nothing generate can produce", tg.Arg, g.Exit), clip(g.Stderr))
+			}
 			continue
 		}
 		u1 := sb.Run(Step{Argv: []string{"regex", "update", tg.Arg}, Cwd: "crs", Plan: p.Plans[1]})
